@@ -30,6 +30,17 @@ import (
 
 const secNs = int64(time.Second)
 
+// Two private-use types whose numbers agree with A (1) and AAAA (28) modulo
+// 256: together with CAA (257), which agrees with A in the low byte, they make
+// a key layout that loses or overlaps a byte of the type visible.
+const (
+	typPrivate  uint16 = 65281 // 0xff01
+	typPrivate2 uint16 = 65308 // 0xff1c
+)
+
+// classPrivate agrees with IN (1) in the low byte.
+const classPrivate uint16 = 65281
+
 // simpleKind selects the model of the simple cache: "s" is the repaired code;
 // VERIF_C04_ORIG=1 selects "o", the code before the fix of fromCacheItem, which
 // is how the counter-example of Props/C04.lean was replayed on the old tree.
@@ -43,7 +54,10 @@ func main() {
 		"the real simple and ECS cache middlewares (hook clock) over a functional fake upstream; every " +
 		"response is compared with the Lean model's and, independently, with a fresh instance's answer and " +
 		"the TTL/expiry/cacheability oracle; plus function-level sweeps (findLowestTTL, isCacheable, " +
-		"rmHopToHopData, fromCacheItem at ages around every boundary, key equality of all request pairs). " +
+		"rmHopToHopData, fromCacheItem at ages around every boundary and on an exhaustive 50 ms grid for small TTLs, key " +
+		"equality over all pairs of a random pool and a full grid of key components incl. wide type/class numbers, what " +
+		"is forwarded upstream on a miss); a real-clock campaign reading every entry several times; every message " +
+		"written by or handed to the middleware is overwritten afterwards; a run through dnssvc.NewHandlers. " +
 		"A case is non-trivial when it contains at least one cache hit and one miss; distinct = distinct op logs"
 	if os.Getenv("VERIF_C04_ORIG") == "1" {
 		simpleKind = "o"
@@ -55,9 +69,10 @@ func main() {
 	keyCampaign(o, r, m)
 	boundaryCampaign(o, r, m)
 	historyCampaign(o, r, m)
+	realTimeCampaign(o, r)
+	stackCampaign(o, r)
 	if o.Thorough() {
 		pairCampaign(o, r, m)
-		realTimeCampaign(o, r)
 	}
 
 	r.ModelOps = len(m.Log)
@@ -88,10 +103,12 @@ func rrData(rr dns.RR) uint32 {
 		return 0
 	}
 	h := fnv.New32a()
-	hdr := rr.Header()
-	_, _ = h.Write([]byte(strings.ToLower(hdr.Name)))
-	_, _ = h.Write([]byte{0, byte(hdr.Class >> 8), byte(hdr.Class)})
-	_, _ = h.Write([]byte(strings.TrimPrefix(rr.String(), hdr.String())))
+	// The presentation form of a copy with the TTL masked and the owner
+	// case-folded: independent of how a type prints its header.
+	c := dns.Copy(rr)
+	c.Header().Ttl = 0
+	c.Header().Name = strings.ToLower(c.Header().Name)
+	_, _ = h.Write([]byte(c.String()))
 
 	return h.Sum32()
 }
@@ -199,8 +216,8 @@ func (q reqSpec) fwdSubnet() netip.Prefix {
 }
 
 func (q reqSpec) tokens() string {
-	return fmt.Sprintf("%s %d %d %s %s %s %s %s %s %d", q.name, q.qtype, q.qclass, b2s(q.do), b2s(q.ad), b2s(q.rd),
-		b2s(q.cd), b2s(q.fam6), b2s(q.declined), q.subnetID())
+	return fmt.Sprintf("%s %d %d %s %s %s %s %s %s %d %s", q.name, q.qtype, q.qclass, b2s(q.do), b2s(q.ad), b2s(q.rd),
+		b2s(q.cd), b2s(q.fam6), b2s(q.declined), q.subnetID(), b2s(q.edns || q.do))
 }
 
 func (q reqSpec) msg() *dns.Msg {
@@ -269,6 +286,43 @@ type universe struct {
 	seed  uint64
 	ecs   bool
 	calls int
+	// lastFwd describes the last request that reached the upstream: DO bit,
+	// family and subnet of its ECS option ("-" if there is none).
+	lastFwd string
+	// handed is the last answer handed to the middleware.
+	handed *dns.Msg
+}
+
+// fwdTokens renders what the upstream sees of req the way the driver's `fwd`
+// does: DO bit, family, subnet identity.
+func fwdTokens(req *dns.Msg) string {
+	opt := req.IsEdns0()
+	if opt == nil {
+		return "no-opt"
+	}
+	for _, o := range opt.Option {
+		if e, ok := o.(*dns.EDNS0_SUBNET); ok {
+			fam6 := e.Family == 2
+			id := -1
+			addr, _ := netip.AddrFromSlice(e.Address)
+			pfx := netip.PrefixFrom(addr.Unmap(), int(e.SourceNetmask))
+			if fam6 {
+				pfx = netip.PrefixFrom(addr, int(e.SourceNetmask))
+			}
+			if pfx == zeroPrefix(fam6) {
+				id = 0
+			}
+			for c := range countries {
+				if pfx == geoSubnet(c, fam6) {
+					id = reqSpec{ctry: c, fam6: fam6}.subnetID()
+				}
+			}
+
+			return fmt.Sprintf("%s %s %d", b2s(opt.Do()), b2s(fam6), id)
+		}
+	}
+
+	return "no-ecs"
 }
 
 var ttlPool = []uint32{1, 2, 2, 3, 5, 10, 29, 30, 31, 60, 300, 3600}
@@ -302,6 +356,19 @@ func mkRR(typ uint16, owner string, class uint16, ttl uint32, rng *rand.Rand) dn
 		return &dns.DS{Hdr: hdr, KeyTag: uint16(rng.IntN(65536)), Algorithm: 13, DigestType: 2, Digest: "abcd"}
 	case dns.TypeMX:
 		return &dns.MX{Hdr: hdr, Preference: 10, Mx: fmt.Sprintf("mx%d.example.net.", rng.IntN(10))}
+	case dns.TypeCAA:
+		return &dns.CAA{Hdr: hdr, Flag: 0, Tag: "issue", Value: fmt.Sprintf("ca%d.example.net", rng.IntN(100))}
+	case dns.TypeHTTPS:
+		return &dns.HTTPS{SVCB: dns.SVCB{Hdr: hdr, Priority: uint16(1 + rng.IntN(3)), Target: fmt.Sprintf("svc%d.example.net.", rng.IntN(100))}}
+	case dns.TypeSRV:
+		return &dns.SRV{Hdr: hdr, Priority: 1, Weight: 2, Port: uint16(rng.IntN(65536)), Target: fmt.Sprintf("srv%d.example.net.", rng.IntN(10))}
+	case dns.TypePTR:
+		return &dns.PTR{Hdr: hdr, Ptr: fmt.Sprintf("p%d.example.net.", rng.IntN(1000))}
+	case dns.TypeTXT:
+		return &dns.TXT{Hdr: hdr, Txt: []string{fmt.Sprintf("t%d", rng.IntN(1000))}}
+	case typPrivate, typPrivate2:
+		// Types the code has no structure for (RFC 3597 generic records).
+		return &dns.RFC3597{Hdr: hdr, Rdata: fmt.Sprintf("%04x", rng.IntN(65536))}
 	default:
 		return &dns.TXT{Hdr: dns.RR_Header{Name: owner, Rrtype: dns.TypeTXT, Class: class, Ttl: ttl},
 			Txt: []string{fmt.Sprintf("t%d", rng.IntN(1000))}}
@@ -490,16 +557,18 @@ func (u *universe) answer(req *dns.Msg) (resp *dns.Msg) {
 // ServeDNS implements dnsserver.Handler: the handler below the cache.
 func (u *universe) ServeDNS(ctx context.Context, rw dnsserver.ResponseWriter, req *dns.Msg) (err error) {
 	u.calls++
+	u.lastFwd = fwdTokens(req)
+	u.handed = u.answer(req)
 
-	return rw.WriteMsg(ctx, req, u.answer(req))
+	return rw.WriteMsg(ctx, req, u.handed)
 }
 
 // expected is what the upstream answers when the middleware forwards q as it
 // should: unchanged (simple cache) or with the location's subnet (ECS cache).
-func (u *universe) expected(q reqSpec) (resp *dns.Msg, dep bool) {
+func (u *universe) expected(q reqSpec) (resp *dns.Msg, scope uint8, fake bool) {
 	req := q.msg()
 	if !u.ecs {
-		return u.answer(req), false
+		return u.answer(req), 0, false
 	}
 	fwd := q.fwdSubnet()
 	if req.IsEdns0() == nil {
@@ -516,9 +585,8 @@ func (u *universe) expected(q reqSpec) (resp *dns.Msg, dep bool) {
 	resp = u.answer(req)
 	_, scope, err := dnsmsg.ECSFromMsg(resp)
 	hlib.Must(err)
-	dep = scope != 0 && !ecscache.FakeECSFQDNs.Has(q.name)
 
-	return resp, dep
+	return resp, scope, ecscache.FakeECSFQDNs.Has(q.name)
 }
 
 // ---------------------------------------------------------------------------
@@ -589,9 +657,68 @@ func exchange(h dnsserver.Handler, q reqSpec) (resp *dns.Msg, err error) {
 	}()
 	nrw := dnsserver.NewNonWriterResponseWriter(testAddr, testAddr)
 	ctx := agd.ContextWithRequestInfo(context.Background(), q.ri())
-	err = h.ServeDNS(ctx, nrw, q.msg())
+	req := q.msg()
+	err = h.ServeDNS(ctx, nrw, req)
+	written := nrw.Msg()
+	if written == nil {
+		return nil, err
+	}
+	// The caller gets a private deep copy.  The message the middleware wrote
+	// and the request are then overwritten, the way the layers above do
+	// (truncation, normalisation of OPT, TTL rewriting, pooled messages being
+	// reused): a cache that kept a reference to either instead of a copy of
+	// its own serves the garbage on the next hit.
+	resp = written.Copy()
+	clobber(written)
+	clobber(req)
 
-	return nrw.Msg(), err
+	return resp, err
+}
+
+// clobber overwrites everything reachable from m that a later owner of the
+// message may legitimately change.
+func clobber(m *dns.Msg) {
+	m.Rcode = dns.RcodeRefused
+	m.Truncated, m.Authoritative, m.AuthenticatedData = true, !m.Authoritative, !m.AuthenticatedData
+	m.RecursionAvailable, m.RecursionDesired, m.CheckingDisabled = !m.RecursionAvailable, !m.RecursionDesired, !m.CheckingDisabled
+	for i := range m.Question {
+		m.Question[i] = dns.Question{Name: "clobbered.invalid.", Qtype: dns.TypeNULL, Qclass: dns.ClassNONE}
+	}
+	for _, sec := range []*[]dns.RR{&m.Answer, &m.Ns, &m.Extra} {
+		for _, rr := range *sec {
+			if rr == nil {
+				continue
+			}
+			h := rr.Header()
+			h.Name, h.Ttl = "clobbered.invalid.", 7777777
+			switch v := rr.(type) {
+			case *dns.OPT:
+				h.Name, h.Ttl = ".", 0xffff8000
+				v.Option = nil
+			case *dns.A:
+				for j := range v.A {
+					v.A[j] = 0xee
+				}
+			case *dns.AAAA:
+				for j := range v.AAAA {
+					v.AAAA[j] = 0xee
+				}
+			case *dns.TXT:
+				for j := range v.Txt {
+					v.Txt[j] = "clobbered"
+				}
+			case *dns.SOA:
+				v.Minttl = 7777777
+			case *dns.CNAME:
+				v.Target = "clobbered.invalid."
+			}
+		}
+		// Drop the tail the way truncation does, keeping the backing array.
+		if n := len(*sec); n > 0 {
+			clear((*sec)[n/2:])
+			*sec = (*sec)[:n/2]
+		}
+	}
 }
 
 // ---------------------------------------------------------------------------
@@ -808,8 +935,8 @@ func runCase(r *hlib.Result, m *hlib.Model, c caseCfg, useed uint64, ops []op, r
 				return true
 			}
 			hit := u.calls == before
-			ua, dep := u.expected(o.q)
-			lines = append(lines, fmt.Sprintf("q %d %s %s %s", nowMs*1e6+seq, o.q.tokens(), b2s(dep), msgTokens(ua)))
+			ua, scope, fake := u.expected(o.q)
+			lines = append(lines, fmt.Sprintf("q %d %s %d %s %s", nowMs*1e6+seq, o.q.tokens(), scope, b2s(fake), msgTokens(ua)))
 			tag := "M "
 			if hit {
 				tag = "H "
@@ -818,6 +945,15 @@ func runCase(r *hlib.Result, m *hlib.Model, c caseCfg, useed uint64, ops []op, r
 				misses++
 			}
 			gots = append(gots, tag+showMsg(got))
+			if !hit && u.ecs {
+				// What the middleware forwarded on the miss.
+				lines = append(lines, "fwd "+o.q.tokens())
+				gots = append(gots, u.lastFwd)
+			}
+			if !hit && u.handed != nil {
+				// The upstream's own message is reused as well.
+				clobber(u.handed)
+			}
 
 			// The property oracle: a fresh instance answers the same request.
 			k := o.q.okey(u.ecs, u)
@@ -869,14 +1005,18 @@ var namePool = []string{
 	"126.com.", "126.COM.",
 }
 
-var qtypePool = []uint16{dns.TypeA, dns.TypeA, dns.TypeAAAA, dns.TypeTXT, dns.TypeCNAME, dns.TypeDS, dns.TypeRRSIG}
+var qtypePool = []uint16{dns.TypeA, dns.TypeA, dns.TypeAAAA, dns.TypeTXT, dns.TypeCNAME, dns.TypeDS, dns.TypeRRSIG,
+	dns.TypeCAA, dns.TypeHTTPS, typPrivate}
 
 func genReq(rng *rand.Rand, names []string, ecs bool) (q reqSpec) {
 	q.name = names[rng.IntN(len(names))]
 	q.qtype = qtypePool[rng.IntN(len(qtypePool))]
 	q.qclass = dns.ClassINET
-	if rng.IntN(8) == 0 {
+	switch rng.IntN(16) {
+	case 0, 1:
 		q.qclass = dns.ClassCHAOS
+	case 2:
+		q.qclass = classPrivate
 	}
 	q.do = rng.IntN(3) == 0
 	q.edns = q.do || rng.IntN(2) == 0
@@ -1038,7 +1178,7 @@ func pairCampaign(o *hlib.Opts, r *hlib.Result, m *hlib.Model) {
 	rng := o.Rand("pairs")
 	var pool []reqSpec
 	for _, name := range []string{"example.com.", "EXAMPLE.COM.", "example.org."} {
-		for _, qt := range []uint16{dns.TypeA, dns.TypeAAAA} {
+		for _, qt := range []uint16{dns.TypeA, dns.TypeAAAA, dns.TypeCAA} {
 			for _, qc := range []uint16{dns.ClassINET, dns.ClassCHAOS} {
 				for _, do := range []bool{false, true} {
 					pool = append(pool, reqSpec{name: name, qtype: qt, qclass: qc, do: do, edns: do, rd: true})
@@ -1046,7 +1186,7 @@ func pairCampaign(o *hlib.Opts, r *hlib.Result, m *hlib.Model) {
 			}
 		}
 	}
-	ecsPool := append([]reqSpec{}, pool[:8]...)
+	ecsPool := append([]reqSpec{}, pool[:12]...)
 	for _, q := range pool[:4] {
 		q.name = "ecs.example.com."
 		for _, v := range []struct {
@@ -1249,12 +1389,86 @@ func funcCampaign(o *hlib.Opts, r *hlib.Result, m *hlib.Model) {
 			r.Disagree("c04-"+what[i], fmt.Sprintf("%q: real %q, model %q", lines[i], gots[i], answers[i]), lines[i])
 		}
 	}
+	ttlGrid(o, r, m)
+}
+
+// ttlGrid: exhaustive small scope for the TTL arithmetic of both fromCacheItem
+// functions: every lowest TTL from 1 to 6 s (and 30, 31 for SERVFAIL's cap) at
+// every age on a 50 ms grid from 0 to 1.5 s beyond expiry, which includes every
+// half-second rounding boundary and the expiry itself.  The oracle is the
+// property's bound, the model is asked for the same age (+1 ns, see above).
+func ttlGrid(o *hlib.Opts, r *hlib.Result, m *hlib.Model) {
+	var lines, gots []string
+	q := reqSpec{name: "grid.example.", qtype: dns.TypeA, qclass: dns.ClassINET, rd: true}
+	step := int64(50)
+	if o.Thorough() {
+		step = 10
+	}
+	for _, low := range []uint32{1, 2, 3, 4, 5, 6, 30, 31} {
+		for _, rcode := range []int{dns.RcodeSuccess, dns.RcodeServerFailure} {
+			msg := &dns.Msg{}
+			msg.SetReply(q.msg())
+			msg.Rcode = rcode
+			msg.Answer = []dns.RR{
+				&dns.A{Hdr: dns.RR_Header{Name: q.name, Rrtype: dns.TypeA, Class: dns.ClassINET, Ttl: low}, A: net.IPv4(10, 0, 0, 1).To4()},
+				&dns.A{Hdr: dns.RR_Header{Name: q.name, Rrtype: dns.TypeA, Class: dns.ClassINET, Ttl: low + 7}, A: net.IPv4(10, 0, 0, 2).To4()},
+			}
+			eff := dnsmsg.FindLowestTTL(msg)
+			from := int64(0)
+			if low >= 30 {
+				from = int64(eff)*1000 - 2000
+			}
+			for ageMs := from; ageMs <= int64(eff)*1000+1500; ageMs += step {
+				age := time.Duration(ageMs) * time.Millisecond
+				for _, kind := range []string{"s", "e"} {
+					t0 := time.Now()
+					var resp *dns.Msg
+					if kind == "s" {
+						resp = cache.VerifC04FromCacheItem(msg, q.msg(), age)
+					} else {
+						resp = ecscache.VerifC04FromCacheItem(msg, q.msg(), false, age)
+					}
+					if time.Since(t0) > 4*time.Millisecond || len(resp.Answer) != 2 {
+						r.Count("discard.slow_fromCacheItem")
+
+						continue
+					}
+					for j, rr := range resp.Answer {
+						orig := msg.Answer[j].Header().Ttl
+						if bound := leftRounded(orig, int64(age)); rr.Header().Ttl > bound {
+							pfx := map[string]string{"s": "simple:", "e": "ecs:"}[kind]
+							r.Violate(pfx+"fromCacheItem-ttl-exceeds-remaining", fmt.Sprintf("fromCacheItem: record of original TTL %d "+
+								"(lowest TTL of the item %d) served with TTL %d at age %d ms; at most %d is left", orig, eff,
+								rr.Header().Ttl, ageMs, bound), map[string]any{"msg": toksOf(msg), "age_ms": ageMs, "cache": kind})
+						}
+					}
+					mk := kind
+					if kind == "s" {
+						mk = simpleKind
+					}
+					lines = append(lines, fmt.Sprintf("ttl %s %d %d", mk, eff, int64(age)+1))
+					gots = append(gots, fmt.Sprint(resp.Answer[0].Header().Ttl))
+					r.Case(fmt.Sprintf("tg %s %d %d %d", kind, low, rcode, ageMs), true)
+				}
+			}
+		}
+	}
+	r.Count("ttl.grid_exhaustive_done")
+	answers := m.Batch(lines)
+	for i := range lines {
+		if answers[i] != gots[i] {
+			r.Disagree("c04-fromCacheItem", fmt.Sprintf("%q: real %q, model %q", lines[i], gots[i], answers[i]), lines[i])
+		}
+	}
 }
 
 func toksOf(m *dns.Msg) string { return msgTokens(m) }
 
 // keyCampaign: key equality over all pairs of a request pool, against the
-// model and against the property's own notion of "same question".
+// model and against the property's own notion of "same question".  The pool is
+// a random part plus a full grid over every key component, including type and
+// class numbers that agree modulo 256 or in one byte only (so that a key
+// layout which drops, truncates or overlaps a field shows up as a collision).
 func keyCampaign(o *hlib.Opts, r *hlib.Result, m *hlib.Model) {
 	rng := o.Rand("keys")
 	var pool []reqSpec
@@ -1265,6 +1479,17 @@ func keyCampaign(o *hlib.Opts, r *hlib.Result, m *hlib.Model) {
 	for i := 0; i < n; i++ {
 		pool = append(pool, genReq(rng, namePool, true))
 	}
+	nRandom := len(pool)
+	for _, name := range []string{"example.com.", "EXAMPLE.com.", "xample.com."} {
+		for _, qt := range []uint16{dns.TypeA, dns.TypeCAA, typPrivate, dns.TypeAAAA, 256} {
+			for _, qc := range []uint16{dns.ClassINET, classPrivate, 256} {
+				for v := 0; v < 16; v++ {
+					pool = append(pool, reqSpec{name: name, qtype: qt, qclass: qc, do: v&1 != 0, edns: v&1 != 0, rd: true,
+						fam6: v&2 != 0, declined: v&4 != 0, ctry: v >> 3})
+				}
+			}
+		}
+	}
 	mw := ecscache.NewMiddleware(&ecscache.MiddlewareConfig{
 		Cloner: agdtest.NewCloner(), Logger: slogutil.NewDiscardLogger(), CacheManager: agdcache.EmptyManager{},
 		GeoIP: newGeoIP(), NoECSCount: 1, ECSCount: 1,
@@ -1273,30 +1498,55 @@ func keyCampaign(o *hlib.Opts, r *hlib.Result, m *hlib.Model) {
 		return ecscache.VerifC04ToCacheKey(mw, &ecscache.VerifC04Key{Host: q.ri().Host, Subnet: q.fwdSubnet(),
 			QType: q.qtype, QClass: q.qclass, ReqDO: q.do, IsECSDeclined: q.declined}, dep)
 	}
+	type keys struct {
+		s      string
+		nk, dk uint64
+		lname  string
+		fwd    netip.Prefix
+	}
+	ks := make([]keys, len(pool))
+	for i, q := range pool {
+		ks[i] = keys{s: cache.VerifC04ToCacheKey(q.msg()), nk: ek(q, false), dk: ek(q, true),
+			lname: strings.ToLower(q.name), fwd: q.fwdSubnet()}
+	}
 	var lines, gots []string
-	for _, a := range pool {
-		for _, b := range pool {
-			same := strings.EqualFold(a.name, b.name) && a.qtype == b.qtype && a.qclass == b.qclass && a.do == b.do
-			s := cache.VerifC04ToCacheKey(a.msg()) == cache.VerifC04ToCacheKey(b.msg())
-			nk := ek(a, false) == ek(b, false)
-			dk := ek(a, true) == ek(b, true)
+	nModel := 6000
+	if o.Thorough() {
+		nModel = 60000
+	}
+	// Every pair with at least one random member goes to the model; of the
+	// grid x grid pairs a random sample does.
+	gridPairs := (len(pool) - nRandom) * (len(pool) - nRandom)
+	for i, a := range pool {
+		for j, b := range pool {
+			same := ks[i].lname == ks[j].lname && a.qtype == b.qtype && a.qclass == b.qclass && a.do == b.do
+			s := ks[i].s == ks[j].s
+			nk := ks[i].nk == ks[j].nk
+			dk := ks[i].dk == ks[j].dk
+			if s != same || nk != (same && a.fam6 == b.fam6 && a.declined == b.declined) ||
+				dk != (same && a.fam6 == b.fam6 && ks[i].fwd == ks[j].fwd) {
+				rep := map[string]any{"a": a.tokens(), "b": b.tokens()}
+				if s != same {
+					r.Violate("simple:key-separation", fmt.Sprintf("simple cache key equality is %v for %s / %s", s, a.tokens(), b.tokens()), rep)
+				}
+				if nk != (same && a.fam6 == b.fam6 && a.declined == b.declined) {
+					r.Violate("ecs:key-separation", fmt.Sprintf("no-ECS key equality is %v for %s / %s", nk, a.tokens(), b.tokens()), rep)
+				}
+				if dk != (same && a.fam6 == b.fam6 && ks[i].fwd == ks[j].fwd) {
+					r.Violate("ecs:key-separation", fmt.Sprintf("ECS key equality is %v for %s / %s", dk, a.tokens(), b.tokens()), rep)
+				}
+			}
+			r.Distribution["keys.pair.same_"+b2s(same)]++
+			if (i >= nRandom && j >= nRandom) && rng.IntN(gridPairs) >= nModel {
+				continue
+			}
 			lines = append(lines, "keyeq s "+a.tokens()+" "+b.tokens(), "keyeq n "+a.tokens()+" "+b.tokens(),
 				"keyeq d "+a.tokens()+" "+b.tokens())
 			gots = append(gots, b2s(s), b2s(nk), b2s(dk))
-			rep := map[string]any{"a": a.tokens(), "b": b.tokens()}
-			if s != same {
-				r.Violate("simple:key-separation", fmt.Sprintf("simple cache key equality is %v for %s / %s", s, a.tokens(), b.tokens()), rep)
-			}
-			if nk != (same && a.fam6 == b.fam6 && a.declined == b.declined) {
-				r.Violate("ecs:key-separation", fmt.Sprintf("no-ECS key equality is %v for %s / %s", nk, a.tokens(), b.tokens()), rep)
-			}
-			if dk != (same && a.fam6 == b.fam6 && a.fwdSubnet() == b.fwdSubnet()) {
-				r.Violate("ecs:key-separation", fmt.Sprintf("ECS key equality is %v for %s / %s", dk, a.tokens(), b.tokens()), rep)
-			}
 			r.Case("k "+a.tokens()+" "+b.tokens(), s || nk || dk)
-			r.Count("keys.pair.same_" + b2s(same))
 		}
 	}
+	r.Count("keys.grid_all_pairs_checked_by_oracle")
 	answers := m.Batch(lines)
 	for i := range lines {
 		if answers[i] != gots[i] {
@@ -1305,33 +1555,54 @@ func keyCampaign(o *hlib.Opts, r *hlib.Result, m *hlib.Model) {
 	}
 }
 
-// realTimeCampaign (thorough): the stock constructors with the real clock and
-// real sleeps; many entries age in parallel.  The verdicts use measured lower
-// bounds of the age, so scheduling delays cannot cause a false alarm.
+// realTimeCampaign: the stock constructors with the real clock and real
+// sleeps; many entries age in parallel, and each is read back several times
+// (so that anything a hit does to the stored entry — its time stamp, its
+// records, its expiry — shows in the next hit; the hook clock of the other
+// campaigns hands the middleware a shifted copy of the stored item and cannot
+// see that).  The verdicts use measured lower bounds of the age, so scheduling
+// delays cannot cause a false alarm.  The quick tier runs a small batch
+// (about 2.5 s of wall time, all sleeping in parallel).
 func realTimeCampaign(o *hlib.Opts, r *hlib.Result) {
 	rng := o.Rand("realtime")
 	type job struct {
 		c      caseCfg
 		q      reqSpec
 		useed  uint64
-		waitMs int64
+		waitMs []int64
+	}
+	nJobs := 120
+	patterns := [][]int64{{1200, 1200}, {700, 900, 700}, {1200, 600}}
+	if o.Thorough() {
+		nJobs = 600
+		patterns = append(patterns, []int64{300, 800, 1500}, []int64{1600, 1300}, []int64{2100, 800}, []int64{600, 2000, 500},
+			[]int64{1100, 1100, 1100}, []int64{2600, 500})
 	}
 	var jobs []job
-	for i := 0; i < 300; i++ {
+	for i := 0; len(jobs) < nJobs && i < 50*nJobs; i++ {
 		c := caseCfg{kind: 's'}
 		if i%2 == 1 {
 			c.kind = 'e'
 		}
-		jobs = append(jobs, job{c: c, q: genReq(rng, namePool[:5], c.kind == 'e'), useed: rng.Uint64(),
-			waitMs: []int64{300, 600, 1100, 1600, 1800, 2100, 2600, 2900, 3100}[rng.IntN(9)]})
+		j := job{c: c, q: genReq(rng, namePool[:5], c.kind == 'e'), useed: rng.Uint64(), waitMs: patterns[rng.IntN(len(patterns))]}
+		// Only answers that live long enough to be hit more than once are of
+		// interest here (two thirds of the jobs; the rest is unfiltered).
+		if len(jobs)%3 != 0 {
+			ua, _, _ := (&universe{seed: j.useed, ecs: c.kind == 'e'}).expected(j.q)
+			if low := dnsmsg.FindLowestTTL(ua); low < 3 || low > 10 || !cacheableSpec(ua, j.q.qtype) {
+				continue
+			}
+		}
+		jobs = append(jobs, j)
 	}
 	type res struct {
 		j          job
+		step       int
 		got, fresh *dns.Msg
 		hit        bool
 		ageLoNs    int64
 	}
-	out := make(chan res, len(jobs))
+	out := make(chan []res, len(jobs))
 	for _, j := range jobs {
 		go func() {
 			u := &universe{seed: j.useed, ecs: j.c.kind == 'e'}
@@ -1346,24 +1617,35 @@ func realTimeCampaign(o *hlib.Opts, r *hlib.Result) {
 			fresh, err := exchange(h, j.q)
 			hlib.Must(err)
 			setEnd := time.Now()
-			time.Sleep(time.Duration(j.waitMs) * time.Millisecond)
-			getStart := time.Now()
-			before := u.calls
-			got, err := exchange(h, j.q)
-			hlib.Must(err)
-			out <- res{j: j, got: got, fresh: fresh, hit: u.calls == before, ageLoNs: int64(getStart.Sub(setEnd))}
+			var rs []res
+			for step, w := range j.waitMs {
+				time.Sleep(time.Duration(w) * time.Millisecond)
+				getStart := time.Now()
+				before := u.calls
+				got, gerr := exchange(h, j.q)
+				hlib.Must(gerr)
+				hit := u.calls == before
+				rs = append(rs, res{j: j, step: step, got: got, fresh: fresh, hit: hit, ageLoNs: int64(getStart.Sub(setEnd))})
+				if !hit {
+					// The entry was replaced: ages count from here.
+					fresh, setEnd = got, time.Now()
+				}
+			}
+			out <- rs
 		}()
 	}
 	for range jobs {
-		x := <-out
-		r.Case(fmt.Sprintf("rt %c %s %d", x.j.c.kind, x.j.q.tokens(), x.j.waitMs), x.hit)
-		if x.hit {
-			r.Count("realtime.hit")
-			checkHit(r, x.j.c, x.j.q, x.got, x.fresh, x.ageLoNs, true, func() any {
-				return map[string]any{"real_clock": true, "request": x.j.q.tokens(), "sleep_ms": x.j.waitMs, "universe": x.j.useed}
-			})
-		} else {
-			r.Count("realtime.miss")
+		for _, x := range <-out {
+			r.Case(fmt.Sprintf("rt %c %s %v %d", x.j.c.kind, x.j.q.tokens(), x.j.waitMs, x.step), x.hit)
+			if x.hit {
+				r.Count(fmt.Sprintf("realtime.hit.read%d", x.step+1))
+				checkHit(r, x.j.c, x.j.q, x.got, x.fresh, x.ageLoNs, true, func() any {
+					return map[string]any{"real_clock": true, "request": x.j.q.tokens(), "sleeps_ms": x.j.waitMs,
+						"read": x.step + 1, "universe": x.j.useed}
+				})
+			} else {
+				r.Count("realtime.miss")
+			}
 		}
 	}
 }
